@@ -23,7 +23,7 @@ func (c *Ctx) GoccBinary() (string, error) {
 	goccOnce.Do(func() {
 		bin := filepath.Join(c.Scratch, "gocc")
 		cmd := exec.Command("go", "build", "-o", bin, ".")
-		cmd.Dir = "/repo"
+		cmd.Dir = RepoRoot
 		cmd.Env = append(os.Environ(), GoEnv()...)
 		out, err := cmd.CombinedOutput()
 		if err != nil {
